@@ -62,6 +62,12 @@ void error_at(char *loc, char *fmt, ...) {
 }
 
 void error_tok(Token *tok, char *fmt, ...) {
+  // A token from the replacement list of a predefined or command-line
+  // macro has no position in any input file. Report the place where
+  // the macro was used instead.
+  while (tok->origin && !strcmp(tok->file->name, "<built-in>"))
+    tok = tok->origin;
+
   va_list ap;
   va_start(ap, fmt);
   verror_at(tok->file->name, tok->file->contents, tok->line_no, tok->loc, fmt, ap);
